@@ -83,16 +83,24 @@ impl Park {
     #[inline]
     fn check_park(&self) -> bool {
         // fast check, since only one consumer to park
+        #[cfg(may_verif)]
+        crate::verif::pt("park.check_load", crate::verif::addr(self), 0, 0);
         if self.state.load(Ordering::Acquire) {
+            #[cfg(may_verif)]
+            crate::verif::pt("park.check_store", crate::verif::addr(self), 0, 0);
             self.state.store(false, Ordering::Release);
             return false;
         }
+        #[cfg(may_verif)]
+        crate::verif::pt("park.check_swap", crate::verif::addr(self), 0, 0);
         !self.state.swap(false, Ordering::AcqRel)
     }
 
     // unpark the underlying coroutine if any
     #[inline]
     pub(crate) fn unpark_impl(&self, b_sync: bool) {
+        #[cfg(may_verif)]
+        crate::verif::pt("unpark.swap", crate::verif::addr(self), 0, 0);
         if !self.state.swap(true, Ordering::AcqRel) {
             self.wake_up(b_sync);
         }
@@ -118,6 +126,8 @@ impl Park {
 
     #[inline]
     fn wake_up(&self, b_sync: bool) {
+        #[cfg(may_verif)]
+        crate::verif::pt("unpark.take", crate::verif::addr(self), 0, 0);
         if let Some(co) = self.wait_co.take() {
             if b_sync {
                 run_coroutine(co);
@@ -144,10 +154,14 @@ impl Park {
         }
 
         // before a new yield wait the kernel done
+        #[cfg(may_verif)]
+        crate::verif::pt("park.spin_kernel", crate::verif::addr(self), 0, 0);
         while self.wait_kernel.load(Ordering::Acquire) {
             yield_now();
         }
 
+        #[cfg(may_verif)]
+        crate::verif::pt("park.store_timeout", crate::verif::addr(self), 0, 0);
         self.timeout.store(dur);
 
         // what if the state is set before yield?
@@ -156,6 +170,8 @@ impl Park {
         // clear the trigger state
         self.check_park();
         // remove timer handle
+        #[cfg(may_verif)]
+        crate::verif::pt("park.rm_handle", crate::verif::addr(self), 0, 0);
         self.remove_timeout_handle();
 
         // let _gen = self.state.load(Ordering::Acquire);
@@ -199,6 +215,10 @@ impl EventSource for Park {
     // register the coroutine to the park
     fn subscribe(&mut self, co: CoroutineImpl) {
         let cancel = co_cancel_data(&co);
+        #[cfg(may_verif)]
+        let vid = crate::verif::co_vid(&co);
+        #[cfg(may_verif)]
+        crate::verif::pt("psub.add_timer", crate::verif::addr(self), vid, 0);
         // if we share the same park, the previous timer may wake up it by false
         // if we not deleted the timer in time
         let timeout_handle = self
@@ -210,18 +230,28 @@ impl EventSource for Park {
         let _g = self.delay_drop();
 
         // register the coroutine
+        #[cfg(may_verif)]
+        crate::verif::pt("psub.store_co", crate::verif::addr(self), vid, 0);
         self.wait_co.store(co);
 
         // re-check the state, only clear once after resume
+        #[cfg(may_verif)]
+        crate::verif::pt("psub.recheck_state", crate::verif::addr(self), vid, 0);
         if self.state.load(Ordering::Acquire) {
+            #[cfg(may_verif)]
+            crate::verif::pt("psub.fast_take", crate::verif::addr(self), vid, 0);
             // here may have recursive call for subscribe
             // normally the recursion depth is not too deep
             return self.fast_wake_up();
         }
 
         // register the cancel data
+        #[cfg(may_verif)]
+        crate::verif::pt("psub.set_cancel_co", crate::verif::addr(self), vid, 0);
         cancel.set_co(self.wait_co.clone());
         // re-check the cancel status
+        #[cfg(may_verif)]
+        crate::verif::pt("psub.recheck_cancel", crate::verif::addr(self), vid, 0);
         if cancel.is_canceled() {
             unsafe { cancel.cancel() };
         }
